@@ -826,12 +826,12 @@ fn sequential_part(run: &Run) -> Value {
 }
 
 fn main() {
-    let run = Run::new("C12", "exploration");
+    let run = Run::new("C12", "model_checking");
 
     let sequential = sequential_part(&run);
 
     // ---- thread-schedule exploration ---------------------------------------------------------
-    // let schedules = schedule_part(&run);      // <-- to be added: same kernels under the explorer
+    let schedules = checks::c12sched::schedule_part(&run);
     // ------------------------------------------------------------------------------------------
 
     if run.get("schur_commuting_squares_failed") > 0 {
@@ -846,6 +846,10 @@ fn main() {
         "inputs_with_stored_zero": run.get("inputs_with_stored_zero"),
         "rule": "one evaluation = one call of a kernel (solve_triangular, _left, _vec, inv_triangular, Schur::from_partial_triangular with/without transforms, dir_sum_decomp) on one input tuple, judged with reference arithmetic; inputs are enumerated completely as cell assignments (not stored / stored 0 / values) within the bounds listed under 'sequential', hence pairwise distinct; nontrivial = size > 0 and every right-hand-side column non-zero (solves), 0 < r < min(m,n) with B, C non-zero (Schur), a matrix that really splits (decomposition)",
         "sequential": sequential,
+        "schedules": schedules.json,
+        "states": schedules.points + schedules.executions,
+        "transitions": schedules.points + schedules.executions,
+        "traces_validated_against_impl": schedules.executions,
         "informational_not_in_verdict": {
             "schur_commuting_squares_checked": run.get("schur_commuting_squares_checked"),
             "schur_commuting_squares_failed": run.get("schur_commuting_squares_failed"),
@@ -860,7 +864,8 @@ fn main() {
             "right-hand sides / free Schur cells: the largest cell alphabet of {., 0, 1, -1, 2} > {., 0, 1, -1} > {., 1, 2} > {., 1} whose complete enumeration fits the per-shape budget; one-column right-hand sides always use the full alphabet",
             "A is invertible (unit diagonal), so 'A*X = Y' is checked by comparing X with the unique reference solution obtained by substitution in vcore::refnum arithmetic (self-checked: A*x = y)",
             "operands with explicitly stored zeros are built with SpVec::from_sorted_entries + SpMat::from_col_vecs",
-            "the rayon stand-in executes parallel items in index order on the calling thread; consecutive columns therefore share one thread-local scratch vector (other schedules: schedule part)",
+            "sequential part: the rayon stand-in executes parallel items in index order on the calling thread; consecutive columns therefore share one thread-local scratch vector",
+            "schedule part: the same kernels under the shim-rayon explorer: every assignment of the right-hand-side columns to W in {1,2} (thorough 3) persistent workers in every per-worker order, two consecutive solves per execution; Schur with W = 2; dir_sum_decomp: all interleavings of the Mutex acquisitions within preemption bound 2 (thorough 3); every schedule's value must equal the exact value",
             "zero rows/columns of a decomposition are expected after the blocks (as perm_for_indices places them)",
         ],
     );
